@@ -30,6 +30,7 @@ def templates():
     i = keras.Input((4, 4, 2))
     y = L.Conv2D(2, 2, activation="relu", name="c")(i)
     y = L.Activation("relu", name="a")(y)
+    y = L.ReLU(threshold=0.5, name="r_thr")(y)
     y = L.AveragePooling2D(2, name="p")(y)
     y = L.Flatten(name="f")(y)
     y = L.Dense(3, name="d")(y)
@@ -40,6 +41,7 @@ def templates():
     y = L.DepthwiseConv2D(2, name="dw")(i)
     y = L.ReLU(name="r")(y)
     y = L.DepthwiseConv2D(1, use_bias=False, name="dw_nobias")(y)
+    y = L.ReLU(negative_slope=0.125, name="r_leaky")(y)
     y = L.Conv2D(2, 1, use_bias=False, padding="same", name="c2")(y)
     y = L.GlobalAveragePooling2D(name="g")(y)
     y = L.Dense(2, activation="relu", name="d")(y)
@@ -94,6 +96,9 @@ def dictionaries(model, rr):
       d[q]["activation_quantizer"] = a()
     ds.append(("activation_quantizer", d))
   ds.append(("qactivation_string", {"QActivation": a()}))
+  # ReLU layers are looked up under "relu" or, with a negative slope, "leakyrelu": a map naming only one of them / both differently
+  ds.append(("qactivation_leaky_only", {"QActivation": {"leakyrelu": "quantized_relu(4,1,negative_slope=0.125)"}}))
+  ds.append(("qactivation_both", {"QActivation": {"relu": a(), "leakyrelu": "quantized_relu(6,2,negative_slope=0.125)"}}))
   acts = [n for n, c in names.items() if c == "Activation"]
   if acts:
     ds.append(("activation_by_name", {acts[0]: a(), "QDense": {"kernel_quantizer": k()}}))
@@ -364,7 +369,7 @@ def run(tier, seed):
     first = {}
     for c in cases:
       first.setdefault((c[0], c[2]), c)
-    cases = list(first.values())[:36] + keep[:4]
+    cases = list(first.values())[:90] + keep[:4]
   for i, (tname, mk, dname, qcfg, bits, tw) in enumerate(cases):
     try:
       one(r, i, tname, mk, dname, copy.deepcopy(qcfg), bits, tw)
